@@ -351,6 +351,8 @@ func checkComparators(c *fw.Ctx) {
 			vars = append(vars, tvar{k.field, rel3})
 			ip.rel["*param:a."+k.field+"|*param:b."+k.field] = k.field
 		}
+		compareTablePrep = splitThreeWay
+		defer func() { compareTablePrep = nil }()
 		compareTable(c, rule, strings.TrimPrefix(fnSpec, "sort")+": lexicographic chain", fn, 0, vars, ip, func(a asg) string {
 			for _, k := range keys {
 				r := a[k.field]
